@@ -193,25 +193,18 @@ func exchangeFailures(ex *exchangeResult, prefix string, concurrent, realSocket 
 		st := ex.panics[0]
 		return mk(vrun.Violation("panic inside Transport.Read/Write", prefix+":panic:"+vrun.PanicSite(st)+cc, map[string]any{"panic": st[:min(len(st), 6000)], "case": desc}))
 	}
+	if err := ex.failErr; err != nil && ex.failKind != "panic" {
+		if realSocket && errIsEnvironmental(err) {
+			return mk(vrun.Inconcl(ex.failKind + " error of environmental kind: " + err.Error()))
+		}
+		if ex.failKind == "write" {
+			return mk(vrun.Violation("Transport.Write failed on a healthy link", prefix+":write-error"+cc, map[string]any{"side": ex.failSide, "at": ex.failAt, "error": err.Error(), "case": desc}))
+		}
+		return mk(vrun.Violation("peer Read failed although the link is healthy and every earlier message was written successfully", prefix+":read-error"+cc,
+			map[string]any{"side": ex.failSide, "at": ex.failAt, "error": err.Error(), "case": desc}))
+	}
 	if ex.hung {
 		return mk(vrun.Inconcl("wall-clock watchdog fired during the exchange; dump head: " + ex.dump[:min(len(ex.dump), 1500)]))
-	}
-	for s := 0; s < 2; s++ {
-		if err := ex.writeErr[s]; err != nil {
-			if realSocket && errIsEnvironmental(err) {
-				return mk(vrun.Inconcl("write error of environmental kind: " + err.Error()))
-			}
-			return mk(vrun.Violation("Transport.Write failed on a healthy link", prefix+":write-error"+cc, map[string]any{"side": s, "at": ex.writeAt[s], "error": err.Error(), "case": desc}))
-		}
-	}
-	for s := 0; s < 2; s++ {
-		if err := ex.readErr[s]; err != nil {
-			if realSocket && errIsEnvironmental(err) {
-				return mk(vrun.Inconcl("read error of environmental kind: " + err.Error()))
-			}
-			return mk(vrun.Violation("peer Read failed although every message was written successfully", prefix+":read-error"+cc,
-				map[string]any{"side": s, "read_index": ex.readAt[s], "error": err.Error(), "case": desc}))
-		}
 	}
 	return vrun.Result{}, false
 }
